@@ -12,6 +12,9 @@ open Term
 /-- relation call keys: which relation, with which argument terms -/
 inductive Rel where
   | member | member1 | append | rember | permute | distinct
+  /-- a user relation that only calls itself (`fn spin() { proto_vulcan_closure!(spin()) }`, with one argument
+      `proto_vulcan_closure!(|x| { spin_fresh() })`): a silent diverger made of nothing but paused closures -/
+  | spin
 deriving Repr, DecidableEq
 
 structure Call where
@@ -107,6 +110,8 @@ def relBody (c : Call) (n : Nat) : Nat × G :=
              [eqG ord l (.cons (v 0) .nil)],
              [eqG ord l (.cons (v 3) (.cons (v 2) (v 1))),
               diseqG ord (v 3) (v 2), call .distinct [.cons (v 3) (v 1)], call .distinct [.cons (v 2) (v 1)]]])
+  | .spin, [] => (0, conjL [call .spin []])
+  | .spin, [a] => (1, conjL [.fresh (conjL [call .spin [a]])])
   | _, _ => (0, .atom (liftRes fun _ => .panic "bad-call"))
 
 def defs (c : Call) (st : State) : State × G :=
